@@ -437,16 +437,30 @@ impl<'a> ReplyData<'a> {
                 let payload_values = self.payload.iter().map(|field| field.name());
                 let payload_deserialization = self.payload.emit_payload_deserialization();
                 let data_deserialization = self.data.map(DataField::emit_data_deserialization);
-                let data = self.data.map(|_| quote! { data, });
+                let data = self.data.map(|_| quote! { sv_data, });
+                let data_deserialization = data_deserialization.map(|deserialization| {
+                    quote! {
+                        let sv_data = {
+                            let data = sv_data;
+                            let env = &sv_ctx.1;
+                            #deserialization
+                            data
+                        };
+                    }
+                });
 
+                // What the handler gets besides its payload is put aside before the payload is
+                // deserialized: payload parameters are bound under the names the user gave them.
                 quote! {
                     #sylvia ::cw_std::SubMsgResult::Ok(sub_msg_resp) => {
                         #[allow(deprecated)]
                         let #sylvia ::cw_std::SubMsgResponse { events, data, msg_responses} = sub_msg_resp;
+                        let sv_ctx = (deps, env, gas_used, events, msg_responses);
+                        let sv_data = data;
                         #payload_deserialization
                         #data_deserialization
 
-                        #contract_turbofish ::new(). #method_name ((deps, env, gas_used, events, msg_responses).into(), #data #(#payload_values),* )
+                        #contract_turbofish ::new(). #method_name (sv_ctx.into(), #data #(#payload_values),* )
                     }
                 }
             }
@@ -456,9 +470,11 @@ impl<'a> ReplyData<'a> {
 
                 quote! {
                     #sylvia ::cw_std::SubMsgResult::Ok(_) => {
+                        let sv_ctx = (deps, env, gas_used, vec![], vec![]);
+                        let sv_result = result;
                         #payload_deserialization
 
-                        #contract_turbofish ::new(). #method_name ((deps, env, gas_used, vec![], vec![]).into(), result, #(#payload_values),* )
+                        #contract_turbofish ::new(). #method_name (sv_ctx.into(), sv_result, #(#payload_values),* )
                     }
                 }
             }
@@ -494,9 +510,11 @@ impl<'a> ReplyData<'a> {
 
                 quote! {
                     #sylvia ::cw_std::SubMsgResult::Err(error) => {
+                        let sv_ctx = (deps, env, gas_used, vec![], vec![]);
+                        let sv_error = error;
                         #payload_deserialization
 
-                        #contract_turbofish ::new(). #method_name ((deps, env, gas_used, vec![], vec![]).into(), error, #(#payload_values),* )
+                        #contract_turbofish ::new(). #method_name (sv_ctx.into(), sv_error, #(#payload_values),* )
                     }
                 }
             }
@@ -506,9 +524,11 @@ impl<'a> ReplyData<'a> {
 
                 quote! {
                     #sylvia ::cw_std::SubMsgResult::Err(_) => {
+                        let sv_ctx = (deps, env, gas_used, vec![], vec![]);
+                        let sv_result = result;
                         #payload_deserialization
 
-                        #contract_turbofish ::new(). #method_name ((deps, env, gas_used, vec![], vec![]).into(), result, #(#payload_values),* )
+                        #contract_turbofish ::new(). #method_name (sv_ctx.into(), sv_result, #(#payload_values),* )
                     }
                 }
             }
